@@ -1,0 +1,76 @@
+//go:build verif
+
+// Contracts for the deductive verifier in /verif (govc): which directory
+// entries become documents (C15). Comment-only file, compiled only with
+// -tags verif.
+
+package main
+
+// What the file system reports about an entry (abstract; os.FileInfo and
+// fs.FileMode methods are assumed to be read-only queries of it).
+//@ abstract func fiMode(i os.FileInfo) int
+//@ abstract func fiIsDir(i os.FileInfo) bool
+//@ abstract func fiSize(i os.FileInfo) int
+//@ abstract func modeRegular(m int) bool
+// A directory is neither a regular file nor a symbolic link (Lstat semantics).
+//@ axiom dirIsNoFile: forall i os.FileInfo :: {fiIsDir(i)} fiIsDir(i) ==> !modeRegular(fiMode(i)) && (fiMode(i) & 134217728) == 0
+//@ func os.FileInfo.Mode()
+//@   ensures result == fiMode(recv)
+//@   assigns nothing
+//@ func os.FileInfo.IsDir()
+//@   ensures result == fiIsDir(recv)
+//@   assigns nothing
+//@ func os.FileInfo.Size()
+//@   ensures result == fiSize(recv)
+//@   assigns nothing
+//@ func fs.(FileMode).IsRegular
+//@   trusted
+//@   ensures result == modeRegular(m)
+//@   assigns nothing
+
+// The ignore file's verdict on a path relative to the root (abstract), and the
+// relative path itself.
+//@ abstract func ignoredPath(m *ignore.Matcher, p string) bool
+//@ abstract func relPath(root string, p string) string
+//@ func ignore.(*Matcher).Match
+//@   trusted
+//@   flag only_for=main.(*fileAggregator)
+//@   ensures result == ignoredPath(m, path)
+//@   assigns nothing
+//@ func filepath.Rel
+//@   trusted
+//@   ensures result1 == nil ==> result0 == relPath(basepath, targpath)
+//@   assigns nothing
+//@ abstract func toSlash(p string) string
+//@ func filepath.ToSlash
+//@   trusted
+//@   ensures result == toSlash(path)
+//@   assigns nothing
+//@ func filepath.Base
+//@   trusted
+//@   assigns nothing
+
+// fileQueued: add has handed the entry to the indexing loop (ghost, set at the
+// channel send).
+//@ ghost var fileQueued bool
+
+// An entry is queued exactly when the walk reported no error for it, it is a
+// regular file or a symbolic link, and it is the root itself or the ignore
+// file does not exclude its relative path; what is queued carries the entry's
+// own path and size and says it is a link exactly when it is one. Nothing else
+// is ever queued (directories, devices, sockets, ignored paths).
+//@ func main.(*fileAggregator).add
+//@   requires a != nil && !fileQueued && notypednil(info)
+//@   may_panic
+//@   ghost at send: fileQueued = true
+//@   assert at send: arg(0).name == path && arg(0).size == fiSize(info) && arg(0).isSymlink == ((fiMode(info) & 134217728) != 0)
+//@   ensures fileQueued ==> err == nil && result == nil && (modeRegular(fiMode(info)) || (fiMode(info) & 134217728) != 0)
+//@   ensures fileQueued && path != a.root ==> !ignoredPath(a.ignore, toSlash(relPath(a.root, path)))
+//@   ensures err == nil && result == nil && (modeRegular(fiMode(info)) || (fiMode(info) & 134217728) != 0) && (path == a.root || !ignoredPath(a.ignore, toSlash(relPath(a.root, path)))) ==> fileQueued
+//@   ensures err != nil ==> result == err && !fileQueued
+
+// indexArg: a queued symbolic link is indexed with its link target as content
+// (never the file it points to), a queued regular file with its own content.
+//@ func main.indexArg
+//@   guard call:Readlink by field:isSymlink
+//@   guard call:ReadFile by !field:isSymlink
